@@ -332,6 +332,9 @@ impl Decoder {
         };
         if level <= 4 {
             let key_size = key_bits as usize / 8;
+            if !(5..=16).contains(&key_size) {
+                err!(other!("invalid key length {}", key_bits));
+            }
             let key = key_derivation_user_password_rc4(level, key_size, dict, id, pass);
 
             if check_password_rc4(level, dict.u.as_bytes(), id, &key[..std::cmp::min(key_size, 16)]) {
